@@ -398,7 +398,7 @@ pub fn run(s: &Scn, ctx: &mut RunCtx, prefix: &'static str) -> RunOutput {
             }
             Status::Panicked => {
                 had_fault = true;
-                let scripted = !is_probe && s.callers[i].beh.out == Outcome::Panic;
+                let scripted = !is_probe && matches!(s.callers[i].beh.out, Outcome::Panic | Outcome::PanicInCall);
                 if !scripted || t.panic_msg.as_deref() != Some("SimPanic") {
                     world::violation(
                         "C07.only_timeout",
